@@ -190,7 +190,7 @@ def gen_item(rng, zeroize_ok=True):
             if t in ZTRAITS and chance(rng, 0.25):
                 root = pick(rng, ['zeroize_', '::zeroize_', 'krate::zeroize', '::zeroize'])
                 kindv = pick(rng, ['path', 'path', 'str'])
-                metas.append(MList(t, [MNameValue('crate', kindv, PA(root, 1) if chance(rng, 0.08) else P(root))]))
+                metas.append(MList(t, [MNameValue('crate', kindv, PA(root, 1, pick(rng, ['u8', ''])) if chance(rng, 0.08) else P(root))]))
             elif chance(rng, 0.01):
                 metas.append(MList(t, [MPathM('foo')]))
             else:
@@ -200,7 +200,7 @@ def gen_item(rng, zeroize_ok=True):
     if chance(rng, 0.05):
         attrs.insert(rng.randrange(len(attrs) + 1),
                      Attr('dw', metas_body([MNameValue('crate', pick(rng, ['path', 'str']),
-                                                       (lambda r: PA(r, 1) if chance(rng, 0.2) else P(r))(
+                                                       (lambda r: PA(r, 1, pick(rng, ['u8', ''])) if chance(rng, 0.2) else P(r))(
                                                            pick(rng, ['dw', '::dw::inner', 'derive_where', '::derive_where'])))],
                                            trailing=chance(rng, 0.3))))
     # repr
